@@ -68,22 +68,26 @@ fn announce_reply<const N4: usize, const N6: usize>() {
     // counters are concrete here (1-, 2- and 4-digit) so that every write position is concrete
     // for CBMC; decimal formatting of arbitrary counters is checked by c14_counter_format
     let (complete, incomplete, interval) = (7usize, 42usize, 1800usize);
-    let ip4: [[u8; 4]; N4] = kani::any();
-    let p4: [u16; N4] = kani::any();
-    let ip6: [[u8; 16]; N6] = kani::any();
-    let p6: [u16; N6] = kani::any();
-    let mut peers = Vec::with_capacity(N4);
-    let mut i = 0;
-    while i < N4 {
-        peers.push(ResponsePeer { ip_address: Ipv4Addr::from(ip4[i]), port: p4[i] });
-        i += 1;
-    }
-    let mut peers6 = Vec::with_capacity(N6);
-    let mut i = 0;
-    while i < N6 {
-        peers6.push(ResponsePeer { ip_address: Ipv6Addr::from(ip6[i]), port: p6[i] });
-        i += 1;
-    }
+    // peers as separate scalars-of-arrays (a 2-D symbolic array read back by index gave Kani
+    // counterexamples that do not reproduce natively)
+    let (a4, b4): ([u8; 4], [u8; 4]) = (kani::any(), kani::any());
+    let (pa4, pb4): (u16, u16) = (kani::any(), kani::any());
+    let (a6, b6): ([u8; 16], [u8; 16]) = (kani::any(), kani::any());
+    let (pa6, pb6): (u16, u16) = (kani::any(), kani::any());
+    let q4a = ResponsePeer { ip_address: Ipv4Addr::from(a4), port: pa4 };
+    let q4b = ResponsePeer { ip_address: Ipv4Addr::from(b4), port: pb4 };
+    let q6a = ResponsePeer { ip_address: Ipv6Addr::from(a6), port: pa6 };
+    let q6b = ResponsePeer { ip_address: Ipv6Addr::from(b6), port: pb6 };
+    let peers = match N4 {
+        0 => Vec::new(),
+        1 => vec![q4a],
+        _ => vec![q4a, q4b],
+    };
+    let peers6 = match N6 {
+        0 => Vec::new(),
+        1 => vec![q6a],
+        _ => vec![q6a, q6b],
+    };
     let r = AnnounceResponse {
         announce_interval: interval,
         complete,
@@ -108,23 +112,29 @@ fn announce_reply<const N4: usize, const N6: usize>() {
     e.bytes(b"peers");
     e.dec((6 * N4) as u64);
     e.raw(b":");
-    let mut i = 0;
-    while i < N4 {
-        e.raw(&ip4[i]);
-        e.raw(&[(p4[i] >> 8) as u8, p4[i] as u8]);
-        i += 1;
+    // explicit per-peer code: indexing an array of arrays (`ip4[i]`) is mis-modelled by Kani 0.68
+    if N4 > 0 {
+        e.raw(&a4);
+        e.raw(&[(pa4 >> 8) as u8, pa4 as u8]);
+    }
+    if N4 > 1 {
+        e.raw(&b4);
+        e.raw(&[(pb4 >> 8) as u8, pb4 as u8]);
     }
     e.bytes(b"peers6");
     e.dec((18 * N6) as u64);
     e.raw(b":");
-    let mut i = 0;
-    while i < N6 {
-        e.raw(&ip6[i]);
-        e.raw(&[(p6[i] >> 8) as u8, p6[i] as u8]);
-        i += 1;
+    if N6 > 0 {
+        e.raw(&a6);
+        e.raw(&[(pa6 >> 8) as u8, pa6 as u8]);
+    }
+    if N6 > 1 {
+        e.raw(&b6);
+        e.raw(&[(pb6 >> 8) as u8, pb6 as u8]);
     }
     e.raw(b"e");
     assert!(n == e.n, "announce reply length != canonical bencode length");
+
     let k: usize = kani::any();
     kani::assume(k < 160);
     assert!(buf[k] == e.b[k], "announce reply byte != canonical bencode");
